@@ -9,7 +9,7 @@ def runLedger (c : Case) : Res :=
   | none => { verdict := "BADCASE", msg := "unparsable ledger case" }
   | some p =>
     let r := ledgerCompare p
-    let os := ledgerOracles p.dflt p.init p.txs p.impls
+    let os := ledgerOracles p.dflt p.init p.txs p.impls (p.implOutcome == "ok")
     if os.isEmpty then r
     else
       let props := String.intercalate "," (os.map (·.1)).eraseDups
